@@ -46,6 +46,35 @@ class RebuildProp(Prop):
                 {"module": "FindMatches.tla", "cfg": "MC_FindMatches_partial.cfg", "expect": "fail",
                  "what": "KNOWN FINDING in the model: a partially matching decoy enumerated before the intact copy is placed and kept"}]
 
+    def corruptions(self, recs):
+        import copy
+        from .mutate import first
+        out = []
+        good = lambda r: r["status"] == "ok" and r["files"]
+        if self.pid == "C13":
+            for r in first(recs, lambda r: good(r) and all("intact" in f["cands"] for f in r["files"])):
+                m = copy.deepcopy(r)
+                m["files"][0]["after"] = "absent"
+                out.append((m, "C13.complete"))
+                m = copy.deepcopy(r)
+                m["count"] = m["present_after"] + 1
+                out.append((m, "C13.count"))
+        if self.pid == "C14":
+            for r in first(recs, good):
+                m = copy.deepcopy(r)
+                m["sources_unchanged"] = False
+                out.append((m, "C14.sources"))
+                m = copy.deepcopy(r)
+                m["files"][0]["length"] = max(1, m["files"][0]["length"])
+                m["files"][0]["after"] = "cand:decoy_all"
+                out.append((m, "C14.decoy"))
+        if self.pid == "C19":
+            for r in first(recs, lambda r: True):
+                m = copy.deepcopy(r)
+                m["outside_ops"] = [{"kind": "mkdir", "path": "61"}]
+                out.append((m, "C19.inside"))
+        return out
+
     def scen(self, rng, P, v, tree_spec, cands_fn, dest_fn=None, **kw):
         sh, sizes = tree_spec
         t = mk_tree(sh, sizes)
